@@ -113,6 +113,19 @@ func signhistImpl(a map[string]any) (res any) {
 			k := keys[ki]
 			k.KeyVal.Private = ""
 			results = append(results, do(func() error { return md.VerifySignature(k) }))
+		case "verifyx":
+			// a forged key object: key id of keys[id], public material (type, scheme) of keys[mat]
+			num := func(f string) int {
+				if n, ok := o[f].(json.Number); ok {
+					x, _ := n.Int64()
+					return int(x)
+				}
+				return 0
+			}
+			k := keys[num("mat")]
+			k.KeyID = keys[num("id")].KeyID
+			k.KeyVal.Private = ""
+			results = append(results, do(func() error { return md.VerifySignature(k) }))
 		case "dumpload":
 			results = append(results, do(func() error {
 				if err := md.Dump(p); err != nil {
@@ -339,6 +352,17 @@ func runC04(r *Runner, tier string, rng *Rng) {
 			case 5:
 				ops = append(ops, map[string]any{"op": "corrupt", "i": rng.Intn(3)})
 				feat += "co"
+			case 6:
+				// verification with the id of one key and the material of another must fail, also right
+				// after the genuine key verified (seeded change c04-verifier-cache-by-keyid)
+				id := rng.Intn(2)
+				mat := (id + 1 + rng.Intn(2)) % 3
+				if rng.Chance(60) {
+					ops = append(ops, map[string]any{"op": "verify", "key": id})
+					feat += "v"
+				}
+				ops = append(ops, map[string]any{"op": "verifyx", "id": id, "mat": mat})
+				feat += "vx"
 			default:
 				ops = append(ops, map[string]any{"op": "verify", "key": rng.Intn(3)})
 				feat += "v"
@@ -360,5 +384,5 @@ func runC04(r *Runner, tier string, rng *Rng) {
 		}
 	}
 	flush()
-	r.St.Rule = "exhaustive: every sequence of length <= L over {sign k0, sign k1, dump+load, verify k0, verify k1, verify k2(other key)} followed by verify of all three keys, both wrappers, links and layouts, Ed25519/ECDSA/RSA; random: histories of length <= 7 with in-memory mutation, signature corruption and signatures made by crypto/* over the standard bytes, over all key types and curves of the pool (RSA-2048, P-224/256/384/521, Ed25519). Compared per operation: ok/err/panic; finally the key ids and, for every signature present, the verdict of an independent crypto/* verification over cjson / PAE bytes. Class = (wrapper, key types, operation sequence)."
+	r.St.Rule = "exhaustive: every sequence of length <= L over {sign k0, sign k1, dump+load, verify k0, verify k1, verify k2(other key)} followed by verify of all three keys, both wrappers, links and layouts, Ed25519/ECDSA/RSA; random: histories of length <= 7 with in-memory mutation, verification with FORGED key objects (id of one key, well-formed material of another; also right after the genuine key verified), signature corruption and signatures made by crypto/* over the standard bytes, over all key types and curves of the pool (RSA-2048, P-224/256/384/521, Ed25519). Compared per operation: ok/err/panic; finally the key ids and, for every signature present, the verdict of an independent crypto/* verification over cjson / PAE bytes. Class = (wrapper, key types, operation sequence)."
 }
